@@ -113,7 +113,7 @@ selfcheck_layouts()
 
 
 def code_text(ch):
-    return ch * 6
+    return (ch * 6)[:6]
 
 
 def concretize(case, rule):
@@ -131,7 +131,7 @@ def concretize(case, rule):
         if L["elines"] == 2:
             role[b["pe"] - 1] = ("CP", bi, name)
     entries = []
-    pool = iter(POOL)
+    pool = (a + b for a in POOL for b in POOL if a != b)       # two-character code lines: 32 x 31 distinct
     for k in range(1, n + 1):
         op = ops[k - 1]
         r = role.get(k)
@@ -168,7 +168,9 @@ def concretize(case, rule):
                 raise vlib.ToolError("D on a tag line")
         entries.append((op, old_t, new_t, r[0] if r else "code"))
     # tail: padding and a far-away block that must never be selected
-    tail = ["zzpad1", "zzpad2", "zzpad3", "// " + tag_text("zz", rule).replace('v="("', 'v="z"'), "zzbody", "// </block>"]
+    # (the padding is longer than any script: a deletion recorded at its OLD line number -- deviation DV1 --
+    # must not reach the far block, whose only purpose is to be untouched)
+    tail = ["zzpad%d" % k for k in range(1, 25)] + ["// " + tag_text("zz", rule).replace('v="("', 'v="z"'), "zzbody", "// </block>"]
     for t in tail:
         entries.append(("K", t, t, "tail"))
     old = [e[1] for e in entries if e[0] in ("K", "D", "M")]
